@@ -8,6 +8,8 @@ rational functions, with a reference interpreter of SVG 1.1 path semantics writt
 """
 from __future__ import annotations
 
+from fractions import Fraction
+
 import ast
 import concurrent.futures as cf
 import itertools
@@ -23,10 +25,10 @@ from sa.poly import RF, fn_atom
 from sa.selftest import Edit, Variant
 from sa.sym import (ClassRef, Cond, Interp, Rec, SymStr, Undecided, closure_of, explore, method_of, to_rf, simplify_num)
 
-from sa.texts import T as _T
+from sa.texts import T as _TX
 
-EXPLANATION = _T["C09"]["explanation"] + " Not decided: " + _T["C09"]["not_decided"] + "."
-ASSUMPTIONS = _T["C09"]["assumptions"]
+EXPLANATION = _TX["C09"]["explanation"] + " Not decided: " + _TX["C09"]["not_decided"] + "."
+ASSUMPTIONS = _TX["C09"]["assumptions"]
 P = "C09"
 
 TARGET = {
@@ -51,6 +53,82 @@ def _is_snap(o) -> bool:
         return True
     near = [c for c, v in o.decisions if v and "abs(" in repr(c) and "<=" in repr(c)]
     return len(near) >= 1
+
+
+def _rf_from_repr(text):
+    """Rebuild the rational function whose repr() labels an opaque atom (None if it is not a plain polynomial text)."""
+    try:
+        tree = ast.parse(text.replace("^", "**"), mode="eval")
+    except SyntaxError:
+        return None
+
+    def ev(n):
+        if isinstance(n, ast.Expression):
+            return ev(n.body)
+        if isinstance(n, ast.Constant) and isinstance(n.value, (int, float)):
+            return RF.of(Fraction(str(n.value)))
+        if isinstance(n, ast.Name):
+            return RF.sym(n.id)
+        if isinstance(n, ast.UnaryOp) and isinstance(n.op, (ast.USub, ast.UAdd)):
+            v = ev(n.operand)
+            return -v if isinstance(n.op, ast.USub) else v
+        if isinstance(n, ast.BinOp) and isinstance(n.op, (ast.Add, ast.Sub, ast.Mult, ast.Div)):
+            a, b = ev(n.left), ev(n.right)
+            return {ast.Add: lambda: a + b, ast.Sub: lambda: a - b, ast.Mult: lambda: a * b, ast.Div: lambda: a / b}[type(n.op)]()
+        if isinstance(n, ast.BinOp) and isinstance(n.op, ast.Pow) and isinstance(n.right, ast.Constant):
+            return ev(n.left) ** int(n.right.value)
+        raise ValueError(ast.dump(n))
+
+    try:
+        v = ev(tree)
+    except (ValueError, TypeError, KeyError):
+        return None
+    return v if repr(v) == text else None
+
+
+def _snap_equalities(o):
+    """Substitution that takes every `abs(E) <= tiny` decided true as E = 0 (solved for one symbol of coefficient +-1)."""
+    mp = {}
+    for c, v in o.decisions:
+        if not (v and getattr(c, "op", None) in ("<=", "<") and isinstance(c.args[0], RF)):
+            continue
+        ats = [a for a in c.args[0].atoms() if isinstance(a, tuple) and a[0] in ("abs", "fabs")]
+        if len(ats) != 1:
+            continue
+        e = _rf_from_repr(ats[0][1])
+        if e is None:
+            return None
+        e = e.subst(mp)
+        if e.is_zero():
+            continue
+        if not e.d.is_const():
+            return None
+        pick = None
+        for m, cf_ in sorted(e.n.t.items(), key=lambda kv: repr(kv[0]), reverse=True):
+            if len(m) == 1 and m[0][1] == 1 and isinstance(m[0][0], str) and abs(cf_) == 1:
+                pick = (m[0][0], cf_)
+                break
+        if pick is None:
+            return None
+        sym, cf_ = pick
+        rest = e - RF.sym(sym) * RF.of(cf_)
+        val = -rest / RF.of(cf_)
+        mp = {k: RF.of(x).subst({sym: val}) for k, x in mp.items()}
+        mp[sym] = val
+    return mp
+
+
+def _subst_segs(segs, mp):
+    def sv(x):
+        if isinstance(x, tuple):
+            return tuple(sv(y) for y in x)
+        if isinstance(x, (str, bool)) or x is None:
+            return x
+        try:
+            return to_rf(x).subst(mp)
+        except Exception:
+            return x
+    return [tuple([s[0]] + [sv(x) for x in s[1:]]) for s in segs]
 
 
 def _check_seq(repo, method, letters):
@@ -86,6 +164,15 @@ def _check_seq(repo, method, letters):
             snaps += 1
             if [s[0] for s in got] != [s[0] for s in want]:
                 probs.append(f"(snap path) segment kinds differ: {[s[0] for s in got]} vs {[s[0] for s in want]}")
+                continue
+            # the end point was within 1e-9 of the subpath start: the curve must be the same up to that distance, i.e. equal
+            # once the tiny differences are taken as zero
+            mp = _snap_equalities(o)
+            if mp is not None:
+                d = segs_equal(_subst_segs(want, mp), _subst_segs(got, mp))
+                if d is not None:
+                    probs.append(f"(near-start snapping path) curve differs at segment {d} by more than the snapping distance: specification {_subst_segs(want, mp)[d] if d < len(want) else None} "
+                                 f"but rewrite gives {_subst_segs(got, mp)[d] if d < len(got) else None}  [{show_cmds(oc)}]")
             continue
         d = segs_equal(want, got)
         if d is not None:
@@ -201,7 +288,7 @@ def run(repo: Repo, rep: Report):
             rep.ok("R-CASE.rewrite", F, f"{n} letter sequences (all letters, all ordered pairs, z/m contexts"
                    + (", all triples" if rep.tier == "thorough" and method in ("explicit_lines", "expand_shorthand", "absolute") else "")
                    + ") equal the reference semantics on every non-snapping path", True)
-    rep.notes.append(f"rewrite exploration: {len(results)} (rewrite, sequence) cases, {total_paths} paths, {total_snaps} snapping paths checked for structure only")
+    rep.notes.append(f"rewrite exploration: {len(results)} (rewrite, sequence) cases, {total_paths} paths, {total_snaps} snapping paths compared with the specification modulo the snapped (<= 1e-9) differences")
     rep.call_sites += len(results)
 
     _check_move(repo, rep)
@@ -404,7 +491,7 @@ def _mk_shape(repo, cls, fields):
     return Rec(c, f, mutable=True)
 
 
-def _check_builders(repo, rep):
+def _check_builders(repo, rep, rule="R-CASE.builder"):
     st = repo["svg_types"]
     S = RF.sym
     specs = {
@@ -457,25 +544,65 @@ def _check_builders(repo, rep):
                 bad = f"common fields not copied to the path: {lost}"
                 break
         if bad:
-            rep.fail("R-CASE.builder", F, f"{cls}.as_path()", bad, st, st.func(f"{cls}.as_path"))
+            rep.fail(rule, F, f"{cls}.as_path()", bad, st, st.func(f"{cls}.as_path"))
         else:
-            rep.ok("R-CASE.builder", F, f"{len(outs)} path(s): outline equals the specification, all 18 common fields copied", True)
-    # polygon / polyline: string surgery, checked on the syntax tree
+            rep.ok(rule, F, f"{len(outs)} path(s): outline equals the specification, all 18 common fields copied", True)
+    # rect corner radii (SVG 1.1 9.2): an unspecified radius takes the other one, then rx <= width/2, ry <= height/2.  Interpreted on the constructor
+    # with concrete numbers (exact constant propagation through whatever code establishes the radii) and read off the outline.
+    F = "svg_types.SVGRect"
+    rep.saw("svg_types.SVGRect.__post_init__")
+    cases = [((0, 3), (3, 2)), ((3, 0), (3, 2)), ((0, 0), (0, 0)), ((8, 1), (5, 1)), ((1, 8), (1, 2)), ((0, 8), (5, 2)), ((7, 0), (5, 2)), ((1, 1), (1, 1)), ((2, 0), (2, 2)), ((0, 1), (1, 1))]
+    bad = None
+    for (rx, ry), (wx, wy) in cases:
+        def mk(rx=rx, ry=ry):
+            try:
+                return ([Interp(repo).call(ClassRef("svg_types", "SVGRect"), [], {"x": 1, "y": 2, "width": 10, "height": 4, "rx": rx, "ry": ry})], {})
+            except Undecided as e:
+                raise AnalysisError(f"{F}: the evaluator cannot interpret the construction of a rect: {e}")
+        outs = explore(repo, method_of(repo, "svg_types", "SVGRect", "as_path"), [], fresh_args=mk, setup=lambda it: install_path_hooks(it), max_paths=16)
+        for o in outs:
+            _und(o, F)
+            if o.raised:
+                bad = f"SVGRect(width=10, height=4, rx={rx}, ry={ry}) raises {o.raised}"
+                continue
+            oc = out_cmds(o.value)
+            arcs = [a for c, a in oc if c in "Aa"]
+            got = (arcs[0][0], arcs[0][1]) if arcs else (0, 0)
+            if not (to_rf(got[0]).equals(to_rf(wx)) and to_rf(got[1]).equals(to_rf(wy))) or (arcs and len(arcs) != 4):
+                bad = f"SVGRect(width=10, height=4, rx={rx}, ry={ry}) is outlined with corner radii {got[0]},{got[1]}; SVG 1.1 gives {wx},{wy}"
+    if bad:
+        rep.fail(rule, F, "rect corner radii", bad, st, st.func("SVGRect.as_path"))
+    else:
+        rep.ok(rule, F, f"{len(cases)} rx/ry combinations: missing radius taken from the other, each clamped to half its own side", True)
+    # polygon / polyline: the path data built from a points string reads (by the grammar) as M p0 L p1 .. [Z]
+    from sa.rules.semparse import reference
     for cls, close in (("SVGPolygon", True), ("SVGPolyline", False)):
         F = f"svg_types.{cls}.as_path"
         fn = st.func(f"{cls}.as_path")
         rep.saw(F)
-        ds = [k.value for c in ast.walk(fn) if isinstance(c, ast.Call) and call_name(c) == "SVGPath" for k in c.keywords if k.arg == "d"]
-        ok = len(ds) == 1
-        if ok:
-            t = unparse(ds[0])
-            ok = t.startswith("'M' + ") and ("points" in t) and (t.endswith("+ ' Z'") if close else "Z" not in t and "z" not in t.replace("points", ""))
-        copied = any(isinstance(c, ast.Call) and call_name(c).endswith("._copy_common_fields") for c in ast.walk(fn))
-        if ok and copied:
-            rep.ok("R-CASE.builder", F, f"d = 'M' + points{' + Z' if close else ''}; common fields copied")
+        bad = None
+        for pts, want in (("1,2 3,4 5,6", [("M", (1, 2)), ("L", (3, 4)), ("L", (5, 6))]), ("0 0 10 0 10 10 0 10", [("M", (0, 0)), ("L", (10, 0)), ("L", (10, 10)), ("L", (0, 10))]), ("7,8", [("M", (7, 8))])):
+            outs = explore(repo, method_of(repo, "svg_types", cls, "as_path"), [], fresh_args=lambda pts=pts: ([_mk_shape(repo, cls, {"points": pts})], {}), max_paths=8)
+            for o in outs:
+                _und(o, F)
+                if o.raised:
+                    bad = f"points={pts!r} raises {o.raised}"
+                    continue
+                d = o.value.f.get("d")
+                if not isinstance(d, str):
+                    raise AnalysisError(f"{F}: path data is not a constant string on a constant points list: {d!r}")
+                got = reference(d, True)
+                exp = want + ([("Z", ())] if close else [])
+                norm = lambda cs: [(c.upper() if c in "zZ" else c, tuple(Fraction(str(a)) for a in args)) for c, args in cs]
+                if got is None or norm(got) != norm(exp):
+                    bad = f"points={pts!r} becomes d={d!r}; expected M p0 L p1 ..{' Z' if close else ''}"
+                lost = [n for n in ("fill", "stroke", "opacity", "id", "transform") if repr(o.value.f.get(n)) != f"<{n}>"]
+                if lost:
+                    bad = f"common fields not copied to the path: {lost}"
+        if bad:
+            rep.fail(rule, F, f"{cls}.as_path()", bad, st, fn)
         else:
-            tail = " + ' Z'" if close else " (open)"
-            rep.fail("R-CASE.builder", F, f"{cls}.as_path()", f"path data is no longer 'M' + points{tail} / common fields not copied", st, fn)
+            rep.ok(rule, F, f"3 points lists: M p0 L p1 ..{' Z' if close else ' (open)'}; common fields copied", True)
 
 
 def _check_round(repo, rep):
@@ -544,6 +671,11 @@ _T = "svg_types"
 VARIANTS = [
     Variant("reverted-fix F2: reflect after any curve", [Edit(_T, "SVGPath.expand_shorthand", "if prev_cmd == short_to_long[cmd]:", "if prev_cmd in short_to_long.values():")],
             [("R-CASE.rewrite", "expand_shorthand")]),
+    Variant("rect: radii clamped before the missing one is defaulted", [Edit(_T, "SVGRect.__post_init__", "        if not self.rx:\n            self.rx = self.ry\n        if not self.ry:\n            self.ry = self.rx\n        self.rx = min(self.rx, self.width / 2)\n        self.ry = min(self.ry, self.height / 2)", "        self.rx = min(self.rx, self.width / 2)\n        self.ry = min(self.ry, self.height / 2)\n        self.rx = self.rx or self.ry\n        self.ry = self.ry or self.rx")],
+            [("R-CASE.builder", "SVGRect")]),
+    Variant("polygon left open", [Edit(_T, "SVGPolygon.as_path", '+ " Z"', '+ ""')], [("R-CASE.builder", "SVGPolygon")]),
+    Variant("silent: rect radii clamp with arguments swapped", [Edit(_T, "SVGRect.__post_init__", "min(self.rx, self.width / 2)", "min(self.width / 2, self.rx)")], silent=True),
+    Variant("snapped end point not made relative", [Edit(_T, "_move_endpoint", "if cmd.islower():", "if False:")], [("R-CASE.rewrite", "relative")]),
     Variant("V/H terms swapped", [Edit(_T, "_explicit_lines_callback", "args = (curr_pos.x, args[0])", "args = (args[0], curr_pos.x)")],
             [("R-CASE", "explicit_lines"), ("R-CASE", "as_cmd_seq")]),
     Variant("curr.x added at a y index for q", [Edit("svg_meta", None, '"q": ((0, 2), (1, 3)),', '"q": ((0, 3), (1, 2)),')],
